@@ -132,8 +132,18 @@ Inductive spec := SNone | STy (T: ty) | SMap (m: tmap).
 (* the type object a schemaless decode builds: proto type under the explicit tags met on the wire *)
 Fixpoint wrap_explicit (outer: tagset) (T: ty) : ty :=
   match outer with [] => T | t :: r => wrap_explicit r (TExp t T) end.
+(* protoComponent.clone(value, tagSet=tagSet): the prototype under the tags met on the wire; the
+   innermost wire tag replaces the prototype's own when they differ (ENUMERATED is decoded by the
+   INTEGER decoder, whose prototype is an INTEGER) *)
 Definition schemaless_ty (proto: ty) (ts: tagset) : ty :=
-  match ts with [] => proto | _ :: outer => wrap_explicit outer proto end.
+  match ts with
+  | [] => proto
+  | t0 :: outer =>
+      wrap_explicit outer (match tagset_of' proto with
+                           | [p0] => if tag_eqb p0 t0 then proto else TImp t0 proto
+                           | _ => TImp t0 proto
+                           end)
+  end.
 
 Definition proto_of_key (k: tkey) : option ty :=
   match k with
@@ -328,7 +338,7 @@ Section Dec.
        | S n' =>
            let! p := tell in
            if N.ltb (N.of_nat (p - start)) len then
-             let! f := fragment proto false in
+             let! f := fragment TOcts false in
              match f with
              | DRaw b => octets_loop proto sp ts len start n' (acc ++ b)
              | DV _ (VOcts b) => octets_loop proto sp ts len start n' (acc ++ b)       (* a value object: bytes + OctetString *)
@@ -348,7 +358,7 @@ Section Dec.
        match n with
        | O => Raise EOutOfFuel
        | S n' =>
-           let! f := fragment proto true in
+           let! f := fragment TOcts true in
            match f with
            | DEoo => create sp proto ts (VOcts acc)
            | DRaw b => octets_indef_loop proto sp ts n' (acc ++ b)
@@ -564,10 +574,16 @@ Section Dec.
          | [] => Ret (DV (schemaless_ty (if is_set then TSetOf TNull else TSeqOf TNull) ts) (VList []))
          | (T0, _) :: _ =>
              let same := forallb (fun tv => tagset_eqb (tagset_of' (fst tv)) (tagset_of' T0)) acc in
-             let proto := if same then (if is_set then TSetOf T0 else TSeqOf T0)
-                          else (if is_set then TSet (map (fun tv => (Req, fst tv)) acc)
-                                else TSeq (map (fun tv => (Req, fst tv)) acc)) in
-             let v := if same then VList (map snd acc) else VRec (map (fun tv => Some (snd tv)) acc) in
+             (* the guessed container holds objects each carrying its own type: SEQUENCE (OF) as a
+                record of the members' types (same octets either way); a SET OF whose members differ
+                in shape as SET OF CHOICE of those shapes *)
+             let rec_ty := map (fun tv => (Req, fst tv)) acc in
+             let rec_v := VRec (map (fun tv => Some (snd tv)) acc) in
+             let proto := if is_set then (if same then TSetOf (TChoice (map fst acc)) else TSet rec_ty) else TSeq rec_ty in
+             let v := if is_set && same
+                      then VList ((fix number (i: nat) (l: list (ty * val)) : list val :=
+                                     match l with [] => [] | tv :: r => VChoice i (snd tv) :: number (S i) r end) O acc)
+                      else rec_v in
              Ret (DV (schemaless_ty proto ts) v)
          end in
        match n with
@@ -649,7 +665,6 @@ Section Dec.
     let proto_str := match sp with
                      | Some T => (match base_of T with TStr n => TStr n | _ => TOcts end)
                      | None => match df_proto fl with Some (KStr n) => TStr n | _ => TOcts end end in
-    let fragment_proto := TOcts in      (* protoFragment: segments are OCTET STRINGs *)
     let unsupported_indef := Raise EMalformed in
     let constructed_guard (k: proc dval) := if negb (tag0_cons ts) then Raise EMalformed else k in
     match cd, len with
@@ -660,8 +675,8 @@ Section Dec.
     | DcOid, Some l => dec_oid_v sp ts l
     | DcReal, Some l => dec_real_v sp ts l
     | (DcInt | DcBoolBer | DcBoolCer | DcNull | DcOid | DcReal), None => unsupported_indef
-    | (DcOcts | DcStr), Some l => dec_octets fragment_proto fl sp ts l sfun
-    | (DcOcts | DcStr), None => dec_octets_indef fragment_proto sp ts
+    | (DcOcts | DcStr), Some l => dec_octets proto_str fl sp ts l sfun
+    | (DcOcts | DcStr), None => dec_octets_indef proto_str sp ts
     | DcBits, Some l => dec_bits fl sp ts l sfun
     | DcBits, None => dec_bits_indef sp ts sfun
     | DcAny, Some l => dec_any sp ts l sfun
